@@ -1137,9 +1137,6 @@ class list_t(object):
             model.set_field(k, v.get_model())
             v.get_model().is_declared_rand = model.is_declared_rand
             v.get_model().rand_mode = model.is_declared_rand
-            # An element assigned while the list is being randomized 
-            # (from pre_randomize) is random in that call, like an appended one
-            v.get_model().set_used_rand(model.is_used_rand, 1)
             model.name_elems()
             
     def __str__(self):
